@@ -67,17 +67,31 @@ class _MemFile:
 
 
 # ---------------------------------------------------------------------------------------
-class ObsStates(dict):
-    """task_states of the real Scheduler; every publication is an observable event."""
+class _ObsMixin:
+    """Mixed into whatever mapping type the real Scheduler uses for task_states, so that every
+    publication is an observable event without replacing the implementation's own behaviour."""
 
-    def __init__(self, world):
-        super().__init__()
-        self.world = world
+    world = None
 
     def __setitem__(self, tid, state):
-        old = self.get(tid)
+        old = dict.get(self, tid)
         super().__setitem__(tid, state)
-        self.world.on_publish(tid, old, state)
+        if self.world is not None:
+            self.world.on_publish(tid, old, state)
+
+
+def observed_states(orig, world):
+    import collections
+
+    base = type(orig)
+    cls = type("Obs" + base.__name__, (_ObsMixin, base), {})
+    if isinstance(orig, collections.defaultdict):
+        new = cls(orig.default_factory)
+    else:
+        new = cls()
+    dict.update(new, orig)
+    new.world = world
+    return new
 
 
 class ObsScheduler(L.Scheduler):
@@ -88,7 +102,7 @@ class ObsScheduler(L.Scheduler):
     async def cancel_task(self, tid):
         w = self._world
         try:
-            before = self.task_states.get(tid)
+            before = dict.get(self.task_states, tid)
         except TypeError:
             before = None
         w.on_cancel_request(tid, before)
@@ -238,12 +252,12 @@ class TaskFacts:
 class PoolWorld:
     """One simulated worker pool.  `props` selects which oracles raise."""
 
-    def __init__(self, trace, cores, props, clock=None, memfs=True, working_dir="/simproj"):
+    def __init__(self, trace, cores, props, clock=None, memfs=True, working_dir="/simproj", hash_salt=0):
         self.trace = trace
         self.cores = cores
         self.props = set(props)
         self.clock = clock or Clock()
-        self.loop = SimLoop(self.clock)
+        self.loop = SimLoop(self.clock, hash_salt)
         self.table = ProcTable(self.loop, trace, self._plan_for)
         self.table.listeners.append(self)
         self.memfs = MemFS(trace) if memfs else None
@@ -262,7 +276,8 @@ class PoolWorld:
         self.pending_violation = None
         self.issued_tids = []
         self.max_live = 0
-        sched = ObsScheduler(working_dir, cores, task_states=ObsStates(self))
+        sched = ObsScheduler(working_dir, cores)
+        sched.task_states = observed_states(sched.task_states, self)
         sched._world = self
         self.sched = sched
         self.server = L.Server(sched)
@@ -293,6 +308,17 @@ class PoolWorld:
         return False
 
     # -- helpers -----------------------------------------------------------------------
+    def st(self, tid):
+        """Published state of tid, read without side effects on the implementation's mapping."""
+        try:
+            return dict.get(self.sched.task_states, tid)
+        except TypeError:
+            return None
+
+    def st_name(self, tid):
+        s = self.st(tid)
+        return s.name if s is not None else None
+
     def probe(self, name, n=1):
         self.probes[name] = self.probes.get(name, 0) + n
 
@@ -331,7 +357,7 @@ class PoolWorld:
         phase = f.procs[-1].phase if f.procs else None
         f.cancels.append((before.name, phase, self._deadline_state(f), bool(f.procs)))
         if before.name == "SUBMITTED":
-            if all(self.sched.task_states[d].name == "COMPLETED" for d in f.dep_tids) and not f.procs:
+            if all(self.st_name(d) == "COMPLETED" for d in f.dep_tids) and not f.procs:
                 self.probe("cancel_while_waiting_for_core")
             else:
                 self.probe("cancel_while_waiting_for_deps")
@@ -358,7 +384,7 @@ class PoolWorld:
         # C11: every dependency's process exited 0 and is published COMPLETED
         for dk, dt in zip(f.deps_k, f.dep_tids):
             df = self.tasks_by_tid.get(dt)
-            pub = self.sched.task_states.get(dt)
+            pub = self.st(dt)
             ok = (
                 pub is not None and pub.name == "COMPLETED" and df is not None and df.procs
                 and df.procs[-1].returncode == 0
@@ -437,19 +463,19 @@ class PoolWorld:
         # C12 work conservation
         if len(alive) < self.cores:
             for f in self.tasks_by_tid.values():
-                st = self.sched.task_states.get(f.tid)
+                st = self.st(f.tid)
                 if st is None or st.name != "SUBMITTED" or f.procs or f.spawn_failed:
                     continue
                 if any(c[0] in ("SUBMITTED", "RUNNING") for c in f.cancels):
                     continue
-                if all(self.sched.task_states[d].name == "COMPLETED" for d in f.dep_tids):
+                if all(self.st_name(d) == "COMPLETED" for d in f.dep_tids):
                     self.flag(
                         "C12", "idle_core_while_ready",
                         f"task {f.k} is ready, {len(alive)} of {self.cores} cores busy, nothing runnable",
                     )
         # C13 no survivors: a task in a final state has no live process
         for f in self.tasks_by_tid.values():
-            st = self.sched.task_states.get(f.tid)
+            st = self.st(f.tid)
             if st is not None and st.name in FINAL:
                 for p in f.procs:
                     if p.alive and not p.sigkill:
@@ -659,11 +685,11 @@ class PoolWorld:
     def admissible(self, f):
         """Set of admissible final LocalStatus names for task f, from what happened to it."""
         states = self.sched.task_states
-        bad = [states[d].name for d in f.dep_tids if states[d].name != "COMPLETED"]
+        bad = [self.st_name(d) for d in f.dep_tids if self.st_name(d) != "COMPLETED"]
         eff = [c for c in f.cancels if c[0] in ("SUBMITTED", "RUNNING")]
         if "bogus_dep" in f.plan:
             return set(FINAL), "bogus"  # depends on an id that was never issued: any final state
-        if bad and not f.procs:
+        if bad:
             adm = set()
             for b in bad:
                 if b in FAILED_CLASS:
@@ -717,13 +743,13 @@ class PoolWorld:
         states = self.sched.task_states
         for tid in self.issued_tids:
             if tid not in self.tasks_by_tid:
-                st = states.get(tid)
+                st = self.st(tid)
                 if st is None or st.name not in FINAL:
                     self.flag("C14", "task_lost", f"task accepted from a malformed request (tid {tid}) never reached "
                               f"a final state ({st.name if st else None})", anonymous=True)
         for tid in sorted(self.tasks_by_tid):
             f = self.tasks_by_tid[tid]
-            st = states.get(tid)
+            st = self.st(tid)
             name = st.name if st is not None else None
             if name not in FINAL:
                 self.flag("C13", "not_final", f"task {f.k} (tid {tid}) ended {name}; history {f.history}",
@@ -737,6 +763,8 @@ class PoolWorld:
                     self.flag("C11", "spawned_despite_bad_dependency", f"task {f.k}")
                 if name not in adm:
                     self.flag("C11", "dep_class_mismatch", f"task {f.k} ended {name}, dependencies imply {sorted(adm)}")
+                    self.flag("C13", "wrong_final_state", f"task {f.k} ended {name} although its dependencies ended "
+                              f"{[self.st_name(d) for d in f.dep_tids]}; admissible {sorted(adm)}", got=name, why="dep")
             else:
                 if name not in adm:
                     self.flag("C13", "wrong_final_state",
